@@ -58,6 +58,13 @@ func c07Generic(w *run.W, fam string, pr impl.Project, e *impl.ErrObs, wantTrace
 			return
 		}
 	}
+	// the message itself carries no "file:line" entry of the project: the trace follows the message exactly once
+	for f := range pr.Files {
+		if strings.Contains(e.Msg, "\n"+f+":") {
+			w.Violation("C07", "include-trace:embedded-in-message", fmt.Sprintf("[%s] the message of the error contains an include-trace entry (%s:...), so Error() lists the chain of INCLUDEs twice:\n%s\n%s", fam, f, e.Full, trunc(showProject(pr), 900)), detail)
+			return
+		}
+	}
 	if checkTrace {
 		want := e.Msg
 		for _, t := range wantTrace {
